@@ -291,7 +291,6 @@ func pluginPasswords(r *Run, it Item) {
 
 // ---- stream models used by the call-site plug-in (assumed contracts from package io's documentation)
 
-func ghostWritten(x *Exec, dst Val) string { return "written:" + x.vc.canon(dst[1].T) }
 
 // io.CopyN(dst, src, n): copies k <= n bytes; err == nil iff k == n
 func ioCopyNModel(x *Exec, fr *frame, ins ssa.CallInstruction, c *ssa.CallCommon, args []Val, st *State, r string) (Val, string) {
@@ -299,8 +298,7 @@ func ioCopyNModel(x *Exec, fr *frame, ins ssa.CallInstruction, c *ssa.CallCommon
 	res := x.opaqueCall("io.CopyN", c.Signature().Results(), st, r)
 	k, n := res[0].T, args[2][0].T
 	x.vc.S.fact(r, and(sx("<=", "0", k), sx("<=", k, ite(sx(">=", n, "0"), n, "0")), eq(eq(res[1].T, "0"), eq(k, ite(sx(">=", n, "0"), n, "0")))))
-	g := ghostWritten(x, args[0])
-	st.Ghost[g] = x.vc.S.def("g_written", ic(add(ghost(st, g), k))).T
+	gadd(x, st, "GH_WRITTEN", args[0][1].T, k)
 	return res, r
 }
 
@@ -309,8 +307,7 @@ func ioCopyModel(x *Exec, fr *frame, ins ssa.CallInstruction, c *ssa.CallCommon,
 	used("io.Copy(dst, src): writes k >= 0 bytes to dst until src reports EOF; EOF is not an error")
 	res := x.opaqueCall("io.Copy", c.Signature().Results(), st, r)
 	x.vc.S.fact(r, sx("<=", "0", res[0].T))
-	g := ghostWritten(x, args[0])
-	st.Ghost[g] = x.vc.S.def("g_written", ic(add(ghost(st, g), res[0].T))).T
+	gadd(x, st, "GH_WRITTEN", args[0][1].T, res[0].T)
 	return res, r
 }
 
